@@ -145,14 +145,31 @@ def feas_box(cfg):
     return np.asarray(lb).reshape(-1, 1), np.asarray(ub).reshape(-1, 1)
 
 
-def build(cfg, fwrap):
+def build_optimizer(name, hyperparams):
+    mod = importlib.import_module('opytimizer.optimizers.' + name.lower())
+    return getattr(mod, name)(hyperparams=dict(hyperparams or {}))
+
+
+def run_prelude(cfg, space):
+    """Earlier tasks on the same space (a history of tasks): plain, unobserved Opytimizer.start() calls with the same objective."""
+    from opytimizer import Opytimizer
+    from opytimizer.core.function import Function
+    raw = user_objective(cfg)
+    for pre in cfg.get('prelude') or []:
+        with np.errstate(all='ignore'):
+            Opytimizer(space=space, optimizer=build_optimizer(pre['optimizer'], pre.get('hyperparams')), function=Function(pointer=raw)).start()
+
+
+def build(cfg, fwrap, space=None):
     """Space, optimizer, function from scratch, the way /repo/examples do."""
     from opytimizer.core.function import Function
     from opytimizer.spaces.search import SearchSpace
     from opytimizer.spaces.hyper import HyperSpace
     from opytimizer.spaces.tree import TreeSpace
     lb, ub = bounds(cfg)
-    if cfg['space'] == 'search':
+    if space is not None:
+        pass
+    elif cfg['space'] == 'search':
         space = SearchSpace(n_agents=cfg['n_agents'], n_variables=cfg['n_variables'], n_iterations=cfg['n_iterations'],
                             lower_bound=list(lb), upper_bound=list(ub))
     elif cfg['space'] == 'hyper':
@@ -163,9 +180,7 @@ def build(cfg, fwrap):
         space = TreeSpace(n_trees=cfg['n_agents'], n_terminals=t['n_terminals'], n_variables=cfg['n_variables'],
                           n_iterations=cfg['n_iterations'], min_depth=t['min_depth'], max_depth=t['max_depth'],
                           functions=list(t['functions']), lower_bound=list(lb), upper_bound=list(ub))
-    name = cfg['optimizer']
-    mod = importlib.import_module('opytimizer.optimizers.' + name.lower())
-    opt = getattr(mod, name)(hyperparams=dict(cfg.get('hyperparams') or {}))
+    opt = build_optimizer(cfg['optimizer'], cfg.get('hyperparams'))
     fn = Function(pointer=fwrap)
     return space, opt, fn
 
@@ -453,7 +468,7 @@ class Monitor:
 
     # -- C02 at a record / at return
     def check_c02(self, space, when):
-        if self.cfg.get('hook') == 'move':
+        if self.cfg.get('hook') == 'move' or self.cfg.get('prelude'):
             return
         if self.first_bad is not None:
             self.skip('C02/C20: non-finite argument or value seen (reported under C01)')
@@ -610,10 +625,15 @@ def execute(cfg, light=False, seed=None):
     mon.state0 = np.random.get_state()[1][:8].tolist()
     mon.outcome = {'status': 'ok'}
     hist = None
+    pre_space = None
+    if cfg.get('prelude'):
+        # a history of tasks: the space is built and optimised by the earlier tasks before observation starts
+        pre_space = build(cfg, mon.raw)[0]
+        run_prelude(cfg, pre_space)
     with Patches(mon):
         draws.install()
         try:
-            space, opt, fn = build(cfg, mon.fwrap)
+            space, opt, fn = build(cfg, mon.fwrap, pre_space)
             mon.space, mon.opt, mon.fn = space, opt, fn
             mon.hpn = hp_names(opt)
             mon.hp0 = {k: getattr(opt, k) for k in mon.hpn}
@@ -929,6 +949,10 @@ def final_checks(mon):
     sp = mon.space
     mon.check_population(sp, 'return')
     mon.check_best_feasible(sp, 'return')
+    if mon.cfg.get('prelude'):
+        # C02/C04/C20 speak about one task on a fresh space (the best of an earlier task legitimately survives)
+        check_c01_args(mon)
+        return
     mon.check_c02(sp, 'return')
     if mon.cfg['space'] == 'tree':
         mon.check_gp(sp, 'return')
@@ -1037,6 +1061,9 @@ def run_task(cfg):
         if mon.outcome['status'] in ('exception', 'timeout') and hasattr(mon, 'space'):
             check_c01_args(mon)
             viol = list(mon.viol)
+    if cfg.get('prelude'):
+        tag = 'after-%s:' % '+'.join(p['optimizer'] for p in cfg['prelude'])
+        viol = [dict(v, key=tag + v['key']) for v in viol if v['property'] in ('C01', 'C07', 'C12')]
     stats = {'status': mon.outcome['status'], 'n_evals': len(mon.evals), 'n_hooks': len(mon.hooks), 'n_dumps': len(mon.dumps),
              'n_uniform': getattr(mon, 'draws', None) and mon.draws.n_uniform, 'n_normal': getattr(mon, 'draws', None) and mon.draws.n_normal,
              'n_choice': getattr(mon, 'draws', None) and mon.draws.n_choice, 'clip_agent': mon.n_clip_agent, 'clip_space': mon.n_clip_space,
